@@ -19,7 +19,8 @@ MANIFEST = {
 
 THEOREMS = ["C07_disabled_not_advertised", "C07_structural_value_disables", "C07_analyse_keeps_disabled",
             "C07_include_disables_all", "C07_add_field_first", "C07_add_field_consecutive",
-            "C07_value_depends_on_collected_fields", "C07_collect_keys_complete"]
+            "C07_value_depends_on_collected_fields", "C07_collect_keys_complete",
+            "C07_setter_updater_reports_element", "C07_property_updater_reports_element"]
 
 ALTS = [0, 1, "", "zz", None, {"$u": 1}, True, False, {"$a": [1, 2]}, {"$o": {"a": 5, "x": "n"}}, {"$nan": 1}]
 
